@@ -32,13 +32,8 @@ Proof.
   rewrite Hla, Hlq, Hnd, Hsub, Hck, E. cbn [andb]. split; [reflexivity|].
   constructor; [|exact F]. exists np, nq. apply Nat.eqb_eq in Hla. apply Nat.eqb_eq in Hlq. repeat split; auto.
 Qed.
-Lemma has_call_calls b : has_call b = true -> calls b <> [].
-Proof.
-  induction b as [|s b IH]; [discriminate|]. destruct s; cbn [has_call existsb calls flat_map app]; [discriminate|].
-  intros H. apply IH. exact H.
-Qed.
 Definition gate_names_ok (items : list gitem) : Prop :=
-  Forall (fun i => match i with GDef n d => smem n predefined = false /\ has_call (gd_body d) = true | GOpaque _ _ _ => True end) items.
+  Forall (fun i => match i with GDef n d => smem n predefined = false | GOpaque _ _ _ => True end) items.
 
 Lemma init_gates_total items : forall S Sg Gi, sig_agree S Sg -> gok Sg Gi -> wf_gates S items = true -> gate_names_ok items ->
   exists Sg' Gi', init_gates Sg Gi items = Some (Sg', Gi') /\ gok Sg' Gi' /\ sig_agree (sigs_of S items) Sg'.
@@ -46,9 +41,8 @@ Proof.
   induction items as [|i items IH]; intros S Sg Gi Ha Hg Hw Hn.
   - exists Sg, Gi. repeat split; assumption.
   - destruct i as [n d|n ps qs]; [|discriminate]. cbn [wf_gates] in Hw. apply andb_prop in Hw. destruct Hw as [Hb Hw].
-    unfold gate_names_ok in Hn. inversion Hn as [|? ? Hh Hn']; subst. fold (gate_names_ok items) in Hn'. cbn beta iota in Hh. destruct Hh as [Hnp Hc].
+    unfold gate_names_ok in Hn. inversion Hn as [|? ? Hh Hn']; subst. fold (gate_names_ok items) in Hn'. cbn beta iota in Hh. rename Hh into Hnp.
     destruct (init_body_total S Sg _ _ _ Ha Hb) as [E F]. cbn [init_gates sigs_of]. rewrite E.
-    destruct (calls (gd_body d)) as [|c cs] eqn:Ec; [exfalso; exact (has_call_calls _ Hc Ec)|].
     apply IH; [apply sig_agree_cons; exact Ha| |exact Hw|exact Hn'].
     destruct d as [ps qs body]. cbn [gd_params gd_qubits gd_body] in *. apply gok_cons; assumption.
 Qed.
@@ -173,7 +167,6 @@ Proof.
   unfold wf_names. intros H. apply andb_prop in H. destruct H as [H Hb].
   do 4 (apply andb_prop in H; destruct H as [H _]). unfold gate_names_ok. apply Forall_forall. intros i Hi.
   rewrite forallb_forall in Hb. specialize (Hb i Hi). destruct i as [n d|]; [|exact I].
-  repeat (apply andb_prop in Hb; destruct Hb as [Hb ?]). split; [|assumption].
   apply not_lib_not_predefined. apply (snodup_app_notin _ _ H n). apply in_map_iff. exists (GDef n d). split; [reflexivity|exact Hi].
 Qed.
 Lemma no_reset_of_wf S QL CL os : forallb (wf_op S QL CL) os = true -> has_reset os = false.
